@@ -81,17 +81,20 @@ POSTCONDITION TraceAccepted
 CHECK_DEADLOCK FALSE
 """
 
-# (label, nk, nb, cfg kwargs quick, cfg kwargs thorough, sample quick, sample thorough)
-EXTRACT = [
+# (label, nk, nb, cfg kwargs, sample size)
+EXTRACT_QUICK = [
     ("transactions: writer + 2 snapshots, managed Update ok/fail/panic, Close/Reopen", 2, 1,
-     dict(nk=2, vals="0, 1", nb=1, depth=2, ops=3, upd=True, seeds="0, 2"),
-     dict(nk=2, vals="0, 1", nb=1, depth=2, ops=4, upd=True, seeds="0, 2"), 450, 9000),
+     dict(nk=2, vals="0, 1", nb=1, depth=2, ops=3, upd=True, seeds="0, 2"), 350),
+    ("explicit transactions over seeded trees: pending/committed merge, cursors, snapshots, nested DeleteBucket", 3, 1,
+     dict(nk=3, vals="1", nb=1, depth=2, ops=4, upd=False, seeds="1, 2"), 500),
+]
+EXTRACT_THOROUGH = [
+    ("transactions: writer + 2 snapshots, managed Update ok/fail/panic, Close/Reopen", 2, 1,
+     dict(nk=2, vals="0, 1", nb=1, depth=2, ops=4, upd=True, seeds="0, 2"), 8000),
     ("writer over seeded trees: pending/committed merge, cursor walks and Cursor.Delete, nested DeleteBucket", 3, 1,
-     dict(nk=3, vals="1", nb=1, depth=2, ops=4, upd=False, tx='"w"', seeds="1, 2"),
-     dict(nk=3, vals="1", nb=1, depth=2, ops=6, upd=False, tx='"w"', seeds="1, 2, 3"), 450, 9000),
+     dict(nk=3, vals="1", nb=1, depth=2, ops=6, upd=False, tx='"w"', seeds="1, 2, 3"), 8000),
     ("snapshots: read-only transactions (incl. cursors, refused writes) across commits of the writer", 2, 1,
-     dict(nk=2, vals="1", nb=1, depth=1, ops=4, upd=False, seeds="1"),
-     dict(nk=2, vals="0, 1", nb=1, depth=1, ops=6, upd=False, seeds="1"), 400, 8000),
+     dict(nk=2, vals="0, 1", nb=1, depth=1, ops=6, upd=False, seeds="1"), 7000),
 ]
 SIM_NK, SIM_NB = 3, 2
 
@@ -125,15 +128,15 @@ def run(chk):
 
 
 def _run(chk, thorough, rng, pool, fbin, work):
-    variants = "always,never,size" + (",never+reopen,size+reopen" if thorough else "")
+    variants = "always,never,size" + (",size+reopen" if thorough else "")
     jobs = []
-    for n, (label, nk, nb, kq, kt, sq, st_) in enumerate(EXTRACT):
-        kw = kt if thorough else kq
+    for n, (label, nk, nb, kw, size) in enumerate(EXTRACT_THOROUGH if thorough else EXTRACT_QUICK):
         f = pool.submit(vf.tlc, "Store", "KV", "x%d.cfg" % n, cfg_text=cfg(**kw), workers=2 if thorough else 1, timeout=3000)
-        jobs.append((label + " (<= %d steps)" % kw["ops"], nk, nb, st_ if thorough else sq, f, False))
+        jobs.append((label + " (<= %d steps)" % kw["ops"], nk, nb, size, f, False))
     # simulation: long random behaviours over the full action set
-    sims = [("simulation, explicit transactions", dict(upd=False), 16, 300, 120, 200),
-            ("simulation, with managed Update", dict(upd=True), 10, 200, 120, 200)]
+    sims = [("simulation, explicit transactions", dict(upd=False), 12, 160, 100, 200)]
+    if thorough:
+        sims.append(("simulation, with managed Update", dict(upd=True), 8, 100, 100, 200))
     for n, (label, kw, nq, nt, dq, dt) in enumerate(sims):
         depth = dt if thorough else dq
         f = pool.submit(vf.tlc, "Store", "KV", "s%d.cfg" % n,
@@ -146,10 +149,21 @@ def _run(chk, thorough, rng, pool, fbin, work):
 
     sample_behs = None
     traces = []
+    fbad = None
     for idx, (label, nk, nb, limit, f, sim) in enumerate(jobs):
         r = f.result()
         vf.tlc_ok(r, "KV: " + label)
         behs, st = vf.behaviours(r, limit=limit, rng=rng, strat_key=strat, per_class=12 if not thorough else 300)
+        if sim:
+            # the simulator prints every candidate of the last step: keep two per simulated run
+            seen, kept = {}, []
+            for b in behs:
+                k = json.dumps(b[:-1], sort_keys=True)
+                seen[k] = seen.get(k, 0) + 1
+                if seen[k] <= 2:
+                    kept.append(b)
+            behs = kept
+            st["selected"] = len(behs)
         chk.add_tlc(r, ("simulation: " if sim else "exhaustive + edge extraction: ") + label)
         st["label"] = label
         chk.cov.setdefault("extraction", []).append(st)
@@ -162,6 +176,18 @@ def _run(chk, thorough, rng, pool, fbin, work):
             recs, _ = vf.run_driver(binary, args + ["size" if idx % 2 else "never", tr])
             traces.append((label, tr, pool.submit(vf.tlc, "Store", "TraceKV", "t%d.cfg" % idx,
                                                   cfg_text=TRACE_CFG % (nk, nb, tr), workers=1, timeout=3000)))
+            if fbad is None:
+                # binding self-test (trace): corrupt one recorded answer -> TLC must reject
+                lines = open(tr).read().splitlines()
+                cand = [i for i, x in enumerate(lines) if '"obs_db"' in x and ('"Commit"' in x or '"Update"' in x)]
+                if cand:
+                    ev = json.loads(lines[cand[-1]])
+                    ev["obs_db"][0]["kv"][0] = 7
+                    lines[cand[-1]] = json.dumps(ev)
+                    tr2 = os.path.join(vf.scratch(), "kv-trace-bad.ndjson")
+                    open(tr2, "w").write("\n".join(lines) + "\n")
+                    fbad = (label, pool.submit(vf.tlc, "Store", "TraceKV", "tb.cfg", cfg_text=TRACE_CFG % (nk, nb, tr2),
+                                               workers=1, timeout=1500))
             chk.absorb(recs, "replay+record: " + label)
             recs, _ = vf.run_driver(binary, args + ["always,size+reopen" if idx % 2 else "always,never+reopen"])
             chk.absorb(recs, "replay: " + label)
@@ -187,7 +213,7 @@ def _run(chk, thorough, rng, pool, fbin, work):
     chk.selftest("replay: one committed value of the expected tree corrupted", any(x.get("kind") == "violation" for x in recs))
 
     # 3. trace validation of the recorded random runs
-    first_ok = None
+    ok_labels = set()
     for label, tr, f in traces:
         r = f.result()
         if r["timed_out"]:
@@ -207,19 +233,12 @@ def _run(chk, thorough, rng, pool, fbin, work):
                                    (idx - start, json.dumps({k: v for k, v in badev.items() if not k.startswith("obs_")})[:400]),
                                    dict(trace=[{k: v for k, v in h.items() if not k.startswith("obs_")} for h in hist[-40:]],
                                         event=badev)))
-        elif first_ok is None:
-            first_ok = tr
-    if first_ok:
-        # binding self-test (trace): corrupt one recorded answer -> TLC must reject
-        lines = open(first_ok).read().splitlines()
-        idx = max(i for i, x in enumerate(lines) if '"obs_db"' in x and '"Commit"' in x or '"Update"' in x)
-        ev = json.loads(lines[idx])
-        ev["obs_db"][0]["kv"][0] = 7
-        lines[idx] = json.dumps(ev)
-        tr2 = os.path.join(vf.scratch(), "kv-trace-bad.ndjson")
-        open(tr2, "w").write("\n".join(lines) + "\n")
-        r2 = vf.tlc("Store", "TraceKV", "tb.cfg", cfg_text=TRACE_CFG % (SIM_NK, SIM_NB, tr2), workers=1, timeout=1500)
-        chk.selftest("trace: one recorded committed value corrupted", r2["rc"] != 0 and not r2["timed_out"])
+        else:
+            ok_labels.add(label)
+    if fbad is not None:
+        r2 = fbad[1].result()
+        if fbad[0] in ok_labels:      # the uncorrupted trace was accepted, the corrupted one must not be
+            chk.selftest("trace: one recorded committed value corrupted", r2["rc"] != 0 and not r2["timed_out"])
 
     chk.assumptions += [
         "ffldb layout that is visible through the interface is part of the model: the metadata root contains the internal "
